@@ -967,16 +967,21 @@ M('C20', 'delete waits for pending tasks before forgetting (equivalent disciplin
   None, expect='silent')
 
 M('C07', '_scale_axis_B inverts S for every negative form difference (round-3 seed b)', MPS,
-  "            if form_diff == -1.0:\n                S = 1.0 / S", "            if form_diff < 0.0:\n                S = 1.0 / S",
+  "                S = _negative_power_keep_zeros(S, form_diff)", "                S = _negative_power_keep_zeros(S, -1.0)",
   'FORM-scale-exponent')
 M('C07', '_scale_axis_B: general power first (equivalent)', MPS,
-  """            if form_diff == -1.0:
-                S = 1.0 / S
+  """            if form_diff < 0:
+                S = _negative_power_keep_zeros(S, form_diff)
             elif form_diff != 1.0:
                 S = S**form_diff
-""", """            if form_diff != 1.0:
-                S = S**form_diff
+""", """            if form_diff < 0.0:
+                S = _negative_power_keep_zeros(S, exponent=form_diff)
+            elif form_diff != 1:
+                S = S ** form_diff
 """, None, expect='silent')
+M('C07', 'original defect: negative powers of S turn exact zeros into inf', MPS,
+  "    res[nonzero] = S[nonzero] ** exponent\n    return res", "    res = S ** exponent\n    return res",
+  'FORM-zero-sv')
 M('C07', 'gauge fix reads both tensors before writing the first (round-3 seed a)', MPS,
   """        self.set_B(i0, npc.tensordot(self.get_B(i0), Yl, axes=['vR', 'vL']))
         self.set_B(i1, npc.tensordot(Yr, self.get_B(i1), axes=['vR', 'vL']))
